@@ -319,10 +319,16 @@ Definition check_C12 (sc : scenario) (tr : trace) : list N :=
 
 (* ------------------------------------------------------------------ C11 *)
 (* expected acknowledgements for subscriber a, in arrival order: (entry, optional?, earliest, latest) *)
+(* the eventgroup ids the listener of instance i rejects just before the n-th input *)
+Definition reject_at (ins : list (N * input)) (n : nat) (i : N) (dflt : list N) : list N :=
+  fold_left (fun acc p => match snd p with IApi (ApiSetReject j egs) => if j =? i then egs else acc | _ => acc end) (firstn n ins) dflt.
+
 Definition expected_acks (sc : scenario) (lt : list (N * input * lstate * lstate)) (a : addr)
   : option (list (sdentry * bool * N * N)) :=
   let c := sc_cfg sc in
-  fold_left (fun acc q =>
+  let ins := inputs_of sc in
+  fold_left (fun acc nq =>
+    let '(n, q) := nq in
     match acc with
     | None => None
     | Some l =>
@@ -338,7 +344,7 @@ Definition expected_acks (sc : scenario) (lt : list (N * input * lstate * lstate
             | [] => Some (l ++ [(to_ack_entry sub 0, e_ttl e =? 0, t, t + t_collect c)])
             | [ii] =>
                 if e_ttl e =? 0 then Some l else
-                let ok := negb (memN (sb_id sub) (in_reject (snd ii))) in
+                let ok := negb (memN (sb_id sub) (reject_at ins n (fst ii) (in_reject (snd ii)))) in
                 Some (l ++ [(to_ack_entry sub (if ok then e_ttl e else 0), false, t, t + t_collect c)])
             | _ => None
             end
@@ -349,7 +355,7 @@ Definition expected_acks (sc : scenario) (lt : list (N * input * lstate * lstate
                     else Some l
         | _ => Some l
         end
-    end) lt (Some []).
+    end) (combine (seq 0 (length lt)) lt) (Some []).
 
 Fixpoint match_acks (expected : list (sdentry * bool * N * N)) (actual : list sent_t) : N :=
   match expected, actual with
